@@ -35,6 +35,7 @@ const Row kRows[] = {
   {OP_DATAPTR, {"data()", C_ELEM, A_NONE, 0, true, false, false}},
   {OP_ACCESSORS, {"accessors", C_ELEM, A_NONE, 0, true, false, false}},
   {OP_CONSTRUCT, {"construct", C_ELEM, A_NONE, 0, true, false, false}},
+  {OP_STREAM, {"os<<X", C_ELEM, A_NONE, 0, true, false, false}},
 
   {OP_EXP, {"exp", C_TAN, A_NONE, 1, true, false, false}},
   {OP_RETRACT, {"retract", C_TAN, A_NONE, 1, true, false, false}},
@@ -64,6 +65,7 @@ const Row kRows[] = {
   {OP_T_CASTRT, {"t.cast", C_TAN, A_NONE, 0, true, false, false}},
   {OP_JT_MUL, {"J*t", C_TAN, A_NONE, 0, true, false, true}},
   {OP_T_ACCESSORS, {"t.accessors", C_TAN, A_NONE, 0, true, false, false}},
+  {OP_T_STREAM, {"os<<t", C_TAN, A_NONE, 0, true, false, false}},
 
   {OP_IDENTITY, {"Identity", C_STATIC, A_NONE, 0, true, false, true}},
   {OP_ZERO, {"Zero", C_STATIC, A_NONE, 0, true, false, true}},
